@@ -51,7 +51,8 @@ MANIFEST = dict(
 NS = "Xmp.Reset."
 REQUIRED = [NS + n for n in (
     "C06_history_independent", "C06_loaded_view", "C06_reset_complete", "C06_fields_classified", "C06_globals_whitelisted",
-    "C06_idempotent_fill", "C06_crc_partial_fill", "C06_pure", "C06_persistent_kept", "C06_leak_if_unreset")]
+    "C06_idempotent_fill", "C06_crc_partial_fill", "C06_pure", "C06_persistent_kept", "C06_leak_if_unreset",
+    "C06_restart_independent")]
 
 # members the model declares not to be reset / not always live (must mirror Xmp.Reset.Dead / Live; checked by drv output)
 MODEL_DEAD = set()       # filled from the driver (`sets`): Xmp.Reset.Dead
@@ -91,6 +92,10 @@ REGRESSIONS = [
     ("reset:far_module_extras", "FAR module-wide tempo/vibrato state changed by effects survives into the next player run",
      lambda: "case 0 hist %s rate 49170 fmt 7 smix 0 mem 0 rng 12345\nPR 49170 7 0\nR frames 60 0 0 0\nC frames 40 0 0 0\n" % (
          REPO_DATA("far_effect9.far"),)),
+    ("reset:p.filter", "Amiga LED filter state set by effect E0x survives into the next player run (A500 mixer)",
+     lambda: "case 0 hist %s rate 44100 fmt 0 smix 0 mem 0 rng 12345\nH load 0 0 0 0 %s\nH start 44100 0 0 0\nH setplayer 4 8 0 0\n"
+             "H release 0 0 0 0\nPR 44100 0 0\nR injectfx 0 14 0 0\nR frames 3 0 0 0\nC frames 30 0 0 0\n" % (
+         REPO_DATA("ode2ptk.mod"), REPO_DATA("ode2ptk.mod"))),
     ("reset:s.ticksize", "frame info buffer_size before the first frame is the previous run's tick size",
      lambda: "case 0 hist %s rate 44100 fmt 0 smix 0 mem 0 rng 12345\nH load 0 0 0 0 %s\nH start 44100 0 0 0\nH frames 12 0 0 0\n"
              "C getinfo 0 0 0 0\nC frames 4 0 0 0\n" % (REPO_DATA("ode2ptk.mod"), os.path.join(vlib.REPO, "test", "test.it"))),
